@@ -1,4 +1,5 @@
 import LzmaVerif.Proofs.Trunc
+import LzmaVerif.Proofs.Bcj2
 /-!
 # C05 — truncation surfaces as an error, never as wrong or endless data
 
@@ -16,6 +17,8 @@ encoder and hold for whatever the decoder would have accepted in full.
 * `xz_truncation` – single-stream XZ of any check / filter chain / number of blocks (hypotheses of
   `xz_roundtrip_blocks`, no assumption about the codec): every proper prefix, including the empty one, is
   rejected (`.capped` is the model's output cap, reachable only inside the payload codec).
+* `bcj2_truncation` – BCJ2: a proper prefix of ANY one of the four streams of an encoder output is an error
+  (before fix b212bdf the reader returned the bytes produced so far and then end-of-stream).
 * `lzip_empty_input_is_accepted` – the recorded known finding: the empty input decodes to the empty output.
 
 Not expressible in these models: I/O errors raised by the source at a given `read` call, short reads and
@@ -54,6 +57,22 @@ theorem xz_truncation (c : Xz.Check) (fs : List Xz.Filter) (hfs : Xz.FiltersOk f
     (∃ e, Xz.decode false ((Xz.streamBytes c fs blocks).take k) cap = .err e) ∨
     Xz.decode false ((Xz.streamBytes c fs blocks).take k) cap = .capped :=
   Xz.xz_trunc_blocks_ok c fs hfs blocks hb hsz cap hcap k hk
+
+theorem bcj2_truncation (convert : Nat → Bool) (data : List Nat) (h : ∀ b ∈ data, b < 256) (hne : data ≠ [])
+    (k : Nat) :
+    (k < (Bcj2.encode convert data).main.length →
+      Bcj2.isErr (Bcj2.decode ((Bcj2.encode convert data).main.take k) (Bcj2.encode convert data).call
+        (Bcj2.encode convert data).jump (Bcj2.encode convert data).rc data.length)) ∧
+    (k < (Bcj2.encode convert data).call.length →
+      Bcj2.isErr (Bcj2.decode (Bcj2.encode convert data).main ((Bcj2.encode convert data).call.take k)
+        (Bcj2.encode convert data).jump (Bcj2.encode convert data).rc data.length)) ∧
+    (k < (Bcj2.encode convert data).jump.length →
+      Bcj2.isErr (Bcj2.decode (Bcj2.encode convert data).main (Bcj2.encode convert data).call
+        ((Bcj2.encode convert data).jump.take k) (Bcj2.encode convert data).rc data.length)) ∧
+    (k < (Bcj2.encode convert data).rc.length →
+      Bcj2.isErr (Bcj2.decode (Bcj2.encode convert data).main (Bcj2.encode convert data).call
+        (Bcj2.encode convert data).jump ((Bcj2.encode convert data).rc.take k) data.length)) :=
+  Bcj2.trunc_any convert data h hne k
 
 /-- known finding (KNOWN_FINDINGS.jsonl, `truncation-accepted:lzip:empty-input`) as the model has it -/
 theorem lzip_empty_input_is_accepted (cap : Nat) : LzipFile.decode [] cap = .ok [] 0 [] := by
